@@ -134,7 +134,7 @@ fn parse_parameters(s: &str, parameters: &mut Vec<(String, String)>) {
 }
 
 fn contains(parameters: &[(String, String)], name: &str) -> bool {
-    parameters.iter().any(|(n, _)| n == name)
+    parameters.iter().any(|(n, _)| n.eq_ignore_ascii_case(name))
 }
 
 fn valid_value(s: &str) -> bool {
